@@ -26,14 +26,16 @@ from ..graph import Mismatch
 LEVEL = "model_checking"
 MANIFEST = dict(
     category="model_checking",
-    text="TLC checks the declarative textbook laws (OnlyVisitedEntryChanges, UpdateEquation, TerminalTarget, MCMean, ModelIsEmpirical, RowsNormalised) on operator models of every tabular update of rl_blox over complete dyadic lattices / bounded histories; every emitted vector and transition is replayed into the real jitted functions (_update_policy of Q-learning and SARSA, _dql_update, monte_carlo.update, dynaq.q_learning_update / counter_update / model_update / planning) with exact comparison and set membership under ties; update calls recorded in short train_* runs on a scripted stochastic environment are validated by TLC with the same operators. The law is a for-all over table contents and transitions, which an exhaustive small lattice with exact arithmetic decides sharply.",
-    note="|S|<=3, |A|=2, entries/rewards/gamma/lr from small dyadic sets, histories <= 4 transitions / 2-3 episodes exhaustively plus simulated longer ones; train runs <= 12 steps; trusted: TLC, Exact.tla, float<->rational projection in the driver, jax.vmap of the real function for the bulk replay (a sample is also called un-batched)",
+    text="TLC checks the declarative textbook laws (OnlyVisitedEntryChanges, UpdateEquation, TerminalTarget, MCMean, ModelIsEmpirical, RowsNormalised) on operator models of every tabular update of rl_blox over complete dyadic lattices / bounded histories; every emitted vector and transition is replayed into the real jitted functions (_update_policy of Q-learning and SARSA, _dql_update, monte_carlo.update, dynaq.q_learning_update / counter_update / model_update / planning) with exact comparison and set membership under ties; double Q-learning additionally on near-tie successor rows (values equal or 1-6 float32 steps apart at several magnitudes and signs, given as float32 ordinals on which TLC decides the maximiser set; several random keys per vector), Monte-Carlo additionally with discount 0 and on episodes of hundreds of steps (returns-to-go cycling through dyadic values, rewards derived from them, so that the exact rationals stay small while gamma^t leaves the float32 range); update calls recorded in short train_* runs on a scripted stochastic environment are validated by TLC with the same operators. The law is a for-all over table contents and transitions, which an exhaustive small lattice with exact arithmetic decides sharply.",
+    note="|S|<=3, |A|=2, entries/rewards/gamma/lr from small dyadic sets, histories <= 4 transitions / 2-3 episodes exhaustively plus simulated longer ones; pattern episodes of 200 (thorough: 120-257) steps with return / pair periods 1-2; train runs <= 12 steps; trusted: TLC, Exact.tla, float<->rational projection in the driver, jax.vmap of the real function for the bulk replay (a sample is also called un-batched)",
     technique="TLA+ spec + TLC (invariants on vector lattices and history graphs); replay of TLC-generated vectors/transitions into the real update functions; TLC trace validation of interposed train_* runs",
 )
 W = int(os.environ.get("VERIF_TLC_WORKERS", "16"))
 VEC_INVS = ["OnlyVisitedEntryChanges", "UpdateEquation", "TerminalTarget", "GreedyIsMax"]
 K_DQL = "double_q_learning:greedy_at_current_state"
 K_MODEL = "dynaq:model_row_not_renormalised"
+K_NEAR = "double_q_learning:near_tie_treated_as_tie"
+JAVA_DEEP = {"JAVA_TOOL_OPTIONS": "-Xmx8g -Xss512m"}  # long episodes: Exact.tla's folds recurse once per step
 OUT_TMP = os.path.join(tlc.OUT, "tmp")
 
 
@@ -64,6 +66,32 @@ def rtab(a, bound=1 << 12):
     return None if any(o is None for o in out) else out
 
 
+def float_of_ord(o) -> np.float32:
+    """D4, inverse of exact.ord32: float32 ordinal -> float32 (sign-magnitude bit pattern)."""
+    o = int(o)
+    v = np.array([abs(o)], dtype=np.uint32).view(np.float32)[0]
+    return np.float32(-v) if o < 0 else v
+
+
+def qa_float(w) -> np.ndarray:
+    """The updated table of a vector as float32 values (held in float64).  Near-tie vectors give the successor row by
+    float32 ordinals; the visited entry, where it lies in that row, must be the rational TLC computed with."""
+    t = tab(w["qA"])
+    if w.get("orow"):
+        from .. import exact
+
+        row = np.asarray([float_of_ord(o) for o in w["orow"]], dtype=np.float32)
+        if any(exact.ord32(x) != int(o) or not np.isfinite(x) for x, o in zip(row, w["orow"])):
+            raise tlc.MachineryError(f"ordinals {w['orow']} do not denote finite float32 numbers")
+        if Fraction(float(float_of_ord(w["base"]["ord"]))) != Fraction(*w["base"]["val"]):
+            raise tlc.MachineryError(f"Tabular.tla's ordinal {w['base']['ord']} is not the float32 {w['base']['val']}")
+        visited = t[w["s"], w["a"]]
+        t[w["s2"]] = row.astype(np.float64)
+        if w["s"] == w["s2"] and t[w["s"], w["a"]] != visited:
+            raise tlc.MachineryError(f"near-tie vector: visited entry {visited} differs from its ordinal {w['orow'][w['a']]}")
+    return t
+
+
 def ulp(m) -> float:
     return float(np.spacing(np.float32(abs(m) if m else 1e-30)))
 
@@ -90,7 +118,7 @@ def call_single(M, w):
     import jax.numpy as jnp
 
     alg = w["alg"]
-    qA = jnp.asarray(tab(w["qA"]), dtype=jnp.float32)
+    qA = jnp.asarray(qa_float(w), dtype=jnp.float32)
     s, a, s2 = w["s"], w["a"], w["s2"]
     r, g, lr, term = fq(w["r"]), fq(w["gamma"]), fq(w["lr"]), bool(w["term"])
     if alg == "QL":
@@ -98,9 +126,9 @@ def call_single(M, w):
         return np.asarray(M["ql"]._update_policy(qA, s, jnp.int32(a), r, s2, a2, g, term, lr)), int(a2)
     if alg == "SARSA":
         return np.asarray(M["sarsa"]._update_policy(qA, s, jnp.int32(a), r, s2, jnp.int32(w["a2"]), g, lr, term)), None
-    if alg == "DQL":
+    if alg in ("DQL", "DQLN"):
         qB = jnp.asarray(tab(w["qB"]), dtype=jnp.float32)
-        return np.asarray(M["dql"]._dql_update(jax.random.key(0), qA, qB, s, jnp.int32(a), r, s2, g, lr, term)), None
+        return np.asarray(M["dql"]._dql_update(jax.random.key(int(w.get("key", 0))), qA, qB, s, jnp.int32(a), r, s2, g, lr, term)), None
     if alg == "DYNA":
         return np.asarray(M["dyna"].q_learning_update(s, a, r, s2, g, lr, qA)), None
     if alg == "PLAN":
@@ -122,7 +150,7 @@ def call_batch(M, alg, ws):
     import jax
     import jax.numpy as jnp
 
-    QA = jnp.asarray(np.stack([tab(w["qA"]) for w in ws]), dtype=jnp.float32)
+    QA = jnp.asarray(np.stack([qa_float(w) for w in ws]), dtype=jnp.float32)
     i32 = lambda k: jnp.asarray([w[k] for w in ws], dtype=jnp.int32)
     f32 = lambda k: jnp.asarray([fq(w[k]) for w in ws], dtype=jnp.float32)
     s, a, s2, a2 = i32("s"), i32("a"), i32("s2"), i32("a2")
@@ -133,10 +161,11 @@ def call_batch(M, alg, ws):
         return np.asarray(jax.vmap(M["ql"]._update_policy)(QA, s, a, r, s2, na2, g, term, lr)), np.asarray(na2)
     if alg == "SARSA":
         return np.asarray(jax.vmap(M["sarsa"]._update_policy)(QA, s, a, r, s2, a2, g, lr, term)), None
-    if alg == "DQL":
+    if alg in ("DQL", "DQLN"):
         QB = jnp.asarray(np.stack([tab(w["qB"]) for w in ws]), dtype=jnp.float32)
-        f = lambda qa, qb, s_, a_, r_, s2_, g_, lr_, t_: M["dql"]._dql_update(jax.random.key(0), qa, qb, s_, a_, r_, s2_, g_, lr_, t_)
-        return np.asarray(jax.vmap(f)(QA, QB, s, a, r, s2, g, lr, term)), None
+        keys = jnp.asarray([int(w.get("key", 0)) for w in ws], dtype=jnp.int32)
+        f = lambda k_, qa, qb, s_, a_, r_, s2_, g_, lr_, t_: M["dql"]._dql_update(jax.random.key(k_), qa, qb, s_, a_, r_, s2_, g_, lr_, t_)
+        return np.asarray(jax.vmap(f)(keys, QA, QB, s, a, r, s2, g, lr, term)), None
     if alg == "DYNA":
         return np.asarray(jax.vmap(M["dyna"].q_learning_update)(s, a, r, s2, g, lr, QA)), None
     raise AssertionError(alg)
@@ -146,12 +175,12 @@ def judge_single(alg, e, got, na2):
     """Compare one real result with the model's admissible set. Returns list of (key, what)."""
     w = e["v"]
     bad = []
-    pre = tab(w["qA"])
+    pre = qa_float(w)
     s, a = w["s"], w["a"]
     got = np.asarray(got, dtype=np.float64)
     mask = np.ones(pre.shape, dtype=bool)
     mask[s, a] = False
-    name = {"QL": "q_learning", "SARSA": "sarsa", "DQL": "double_q_learning", "DYNA": "dynaq", "PLAN": "dynaq:planning"}[alg]
+    name = {"QL": "q_learning", "SARSA": "sarsa", "DQL": "double_q_learning", "DQLN": "double_q_learning", "DYNA": "dynaq", "PLAN": "dynaq:planning"}[alg]
     if got.shape != pre.shape:
         return [(f"{name}:result_shape", f"result shape {got.shape} differs from table shape {pre.shape}")]
     if not np.array_equal(got[mask], pre[mask]):
@@ -162,19 +191,25 @@ def judge_single(alg, e, got, na2):
     if not any(got[s, a] == t[s, a] for t in adm):
         if alg == "DQL" and got[s, a] == tab(e["dev"])[s, a]:
             bad.append((K_DQL, f"_dql_update takes the greedy action of the updated table at the CURRENT state {s} instead of the successor {w['s2']}: entry ({s},{a}) became {got[s, a]}, admissible {[float(t[s, a]) for t in adm]}"))
+        elif alg == "DQLN" and any(got[s, a] == tab(t)[s, a] for t in e["dev"]):
+            row = [float(x) for x in pre[w["s2"]]] if s != w["s2"] else [float(float_of_ord(o)) for o in w["orow"]]
+            bad.append((K_NEAR, f"_dql_update (key {w['key']}) evaluates a successor action that is NOT greedy in the updated table: row {row!r} of state {w['s2']} "
+                                f"(float32 ordinals {w['orow']}) has the maximiser(s) {e['g2']} but entry ({s},{a}) became {got[s, a]}, the value for an action whose value is only close to the maximum; "
+                                f"admissible {[float(t[s, a]) for t in adm]} (other table's row {tab(w['qB'])[w['s2']].tolist()})"))
         else:
             bad.append((f"{name}:update_value", f"entry ({s},{a}) became {got[s, a]}, admissible {[float(t[s, a]) for t in adm]}"))
     return bad
 
 
-def check_vectors(rep, M, alg, ns, lat, counters):
-    c = dict(NS=ns, NA=2, ALG=alg, LAT=lat, EMIT=True)
-    r = tlc.run("Tabular", tlc.cfg_text(constants=c, invariants=VEC_INVS), workers=1, coverage=True, tag=f"c14v{alg}", timeout=1500)
+def check_vectors(rep, M, alg, ns, lat, counters, nkeys=1):
+    near = alg == "DQLN"
+    c = dict(NS=ns, NA=2, ALG=alg, LAT=lat, NKEYS=nkeys, EMIT=True)
+    r = tlc.run("Tabular", tlc.cfg_text(constants=c, invariants=VEC_INVS + (["StrictMaximumDecides"] if near else [])), workers=1, coverage=True, tag=f"c14v{alg}", timeout=1500)
     rep.add_tlc(r, f"Tabular {alg} NS={ns} LAT={lat} invariants+vectors")
     if not r.ok:
         rep.violation(f"spec:Tabular:{alg}:{r.violated}", f"design-level violation of {r.violated} ({alg})", r.error_trace)
         return
-    tlc.require_covered(r, ["ChooseIdx", "ChooseTables", "ChooseParams"])
+    tlc.require_covered(r, ["ChooseIdx", "ChooseTablesNear" if near else "ChooseTables", "ChooseParams"])
     es = r.emitted
     if not es:
         raise tlc.MachineryError(f"no vectors emitted for {alg}")
@@ -215,6 +250,8 @@ def check_vectors(rep, M, alg, ns, lat, counters):
             counters["nontrivial"] += 1
         if len(e["adm"]) > 1:
             counters["ties"] += 1
+        if near and len(set(w["orow"])) == len(w["orow"]) and len(e["dev"]) > 1:
+            counters["near_ties_that_matter"] = counters.get("near_ties_that_matter", 0) + 1
         for key, what in judge_single(alg, e, got, n2):
             rep.violation(key, what, {"kind": "vector", "e": e})
     rep.sample({"vector": es[int(rng.integers(len(es)))]})
@@ -225,16 +262,20 @@ def check_vectors(rep, M, alg, ns, lat, counters):
 MC_ULPS_PER_VISIT = 4  # per visit: subtract, reciprocal, multiply, add - each rounds once (<= 1/2 ulp of the magnitude bound)
 
 
-def mc_compare(q_real, n_real, q_model, n_model, n0, mag):
-    """Real table/counts vs model (rationals). Exact while all step sizes 1/n are dyadic (n <= 2), else ulps by visit count."""
+def mc_compare(q_real, n_real, q_model, n_model, n0, mag, exact_entries=None):
+    """Real table/counts vs model (rationals). Exact while all step sizes 1/n are dyadic (n <= 2) and for the entries of which
+    the model says the arithmetic is rounding-free (`exact_entries`, EpisodeFacts of TabularRun.tla), else ulps by visit count."""
     nm = np.asarray(n_model)
     if not np.array_equal(np.asarray(n_real, dtype=np.float64), nm.astype(np.float64)):
         raise Mismatch(f"visit counts {np.asarray(n_real).tolist()} differ from model {nm.tolist()}", site="counts")
-    exact = nm.max() <= 2
+    all_exact = nm.max() <= 2
     for s in range(nm.shape[0]):
         for a in range(nm.shape[1]):
+            exact = all_exact or bool(exact_entries is not None and exact_entries[s][a])
             x = q_model[s][a]
             v = float(q_real[s, a])
+            if not np.isfinite(v):  # NaN / inf never is a mean of returns: a verdict
+                raise Mismatch(f"entry ({s},{a}) is {v!r} after the episode, model {x[0]}/{x[1]} (running mean of the discounted returns, {int(nm[s, a]) - n0} visits)", site="value")
             if Fraction(v) == Fraction(int(x[0]), int(x[1])):
                 continue
             visits = int(nm[s, a]) - n0
@@ -273,11 +314,17 @@ def mc_step(ad, op, args, exp, pre, post):
         ad.ep.append(args)
         if post is not None:
             ad.view = post
+    elif op == "MCLong":  # a whole (long) episode chosen at once: args is the episode
+        ad.ep = [list(x) for x in args]
+        if post is not None:
+            ad.view = post
     elif op == "MCEnd":
         q2, n2 = mc_update_real(ad.M, ad.q, ad.n, ad.ep, fq(args[0]))
         if post is not None:
-            mag = max(float(np.abs(ad.q).max()), sum(abs(fq(x[2])) for x in ad.ep), 8.0)
-            mc_compare(q2, n2, post["q"], post["n"], ad.n0, mag)
+            facts = exp if isinstance(exp, dict) else {}
+            gbound = fq(facts["gmax"]) if "gmax" in facts else sum(abs(fq(x[2])) for x in ad.ep)  # bound on |return|: from TLC
+            mag = max(float(np.abs(ad.q).max()), gbound, 8.0)
+            mc_compare(q2, n2, post["q"], post["n"], ad.n0, mag, exact_entries=facts.get("exact"))
             ad.view = post
         ad.q, ad.n, ad.ep, ad.done = q2, n2, [], ad.done + 1
     else:  # pragma: no cover
@@ -361,23 +408,40 @@ def _site(v):
 def check_histories(rep, M, counters):
     quick = rep.tier == "quick"
     # ---- Monte-Carlo
-    mc_cfgs = [dict(NS=2, SRC=2, L=2, E=2, N0=0, G=(1, 2)), dict(NS=2, SRC=1, L=2, E=2, N0=1, G=(1, 1))]
+    # discount lattice {0, 1/2, 1} on step-by-step episodes (gamma = 0 with 2-step episodes: the second step's return is its
+    # reward alone), and LONG episodes by pattern (LONG: lengths; L = 0: no step-by-step episodes) where gamma^t leaves float32
+    mc_cfgs = [
+        dict(NS=2, SRC=2, L=2, E=2, N0=0, G=(1, 2)), dict(NS=2, SRC=1, L=2, E=2, N0=1, G=(1, 1)), dict(NS=2, SRC=1, L=2, E=2, N0=0, G=(0, 1)),
+        dict(NS=2, SRC=1, L=0, E=1, N0=0, G=(1, 2), LONG={200}),
+    ]
     if not quick:
-        mc_cfgs += [dict(NS=2, SRC=1, L=3, E=2, N0=1, G=(1, 1)), dict(NS=3, SRC=2, L=2, E=2, N0=0, G=(1, 1)), dict(NS=2, SRC=1, L=2, E=3, N0=0, G=(1, 2))]
+        mc_cfgs += [dict(NS=2, SRC=1, L=3, E=2, N0=1, G=(1, 1)), dict(NS=3, SRC=2, L=2, E=2, N0=0, G=(1, 1)), dict(NS=2, SRC=1, L=2, E=3, N0=0, G=(1, 2)),
+                    dict(NS=2, SRC=1, L=3, E=2, N0=1, G=(0, 1)), dict(NS=2, SRC=2, L=2, E=2, N0=0, G=(1, 4)),
+                    dict(NS=2, SRC=1, L=0, E=1, N0=0, G=(1, 2), LONG={257}), dict(NS=2, SRC=1, L=0, E=1, N0=1, G=(1, 4), LONG={120}),
+                    dict(NS=2, SRC=1, L=0, E=1, N0=0, G=(0, 1), LONG={200}), dict(NS=2, SRC=1, L=0, E=1, N0=0, G=(1, 1), LONG={200})]
     for k, m in enumerate(mc_cfgs):
-        c = dict(NS=m["NS"], NA=2, ALG="MC", GNUM=m["G"][0], GDEN=m["G"][1], MAXLEN=m["L"], MAXEP=m["E"], N0=m["N0"], SRC=m["SRC"], LAT=0, EMIT=True)
-        g = tlc.run("TabularRun", tlc.cfg_text(constants=c, invariants=["MCMean"]), workers=1, coverage=True, tag="c14mc", timeout=1500)
+        long = bool(m.get("LONG"))
+        c = dict(NS=m["NS"], NA=2, ALG="MC", GNUM=m["G"][0], GDEN=m["G"][1], MAXLEN=m["L"], MAXEP=m["E"], N0=m["N0"], SRC=m["SRC"], LAT=m.get("LAT", 0),
+                 LONGLENS=set(m.get("LONG", ())), EMIT=True)
+        m = dict(m, LONG=sorted(m["LONG"])) if long else m  # JSON-able (replay files)
+        g = tlc.run("TabularRun", tlc.cfg_text(constants=c, invariants=["MCMean"]), workers=1, coverage=True, tag="c14mc", timeout=1500, env=JAVA_DEEP if long else None)
         rep.add_tlc(g, f"TabularRun MC {m}")
         if not g.ok:
             rep.violation(f"spec:TabularRun:MC:{g.violated}", f"design-level violation of {g.violated}", g.error_trace)
             continue
-        tlc.require_covered(g, ["MCStep", "MCEnd"])
+        tlc.require_covered(g, ["MCLong", "MCEnd"] if long else ["MCStep", "MCEnd"])
         G = graph.Graph(g.emitted)
         res = graph.cover(G, G.roots()[0], lambda: MCAdapter(M, m["NS"], 2, m["N0"], m["G"]), mc_step, lambda ad: ad.view)
         ends = sum(1 for es in G.out.values() for e in es if e[0] == "MCEnd")
         counters["evals"] += ends
         counters["nontrivial"] += ends
         counters["mc_edges"] = counters.get("mc_edges", 0) + res["edges_tested"]
+        if long:
+            counters["mc_long_episodes"] = counters.get("mc_long_episodes", 0) + ends
+            counters["mc_long_episodes_exact"] = counters.get("mc_long_episodes_exact", 0) + sum(1 for e in g.emitted if e["op"] == "MCEnd" and any(any(row) for row in e["exp"]["exact"]))
+            if k == 3:
+                e = next(e for e in g.emitted if e["op"] == "MCLong" and len(e["exp"]["returns"]) == 2 and len(e["exp"]["pairs"]) == 2)
+                rep.sample({"mc_long_episode": {"pattern": e["exp"], "first_steps": e["args"][:3], "last_steps": e["args"][-2:]}})
         rep.traces += ends
         for v in res["violations"]:
             rep.violation("monte_carlo:update:" + _site(v), f"monte_carlo.update ({m}): {v['what']}", {"kind": "mc_path", "cfg": m, "path": v["path"], "want": None})
@@ -386,7 +450,7 @@ def check_histories(rep, M, counters):
     if not quick:
         # long random behaviours: visit counts well beyond the exhaustive bound
         m = dict(NS=3, SRC=3, L=4, E=6, N0=0, G=(1, 2))
-        c = dict(NS=3, NA=2, ALG="MC", GNUM=1, GDEN=2, MAXLEN=4, MAXEP=6, N0=0, SRC=3, LAT=1, EMIT=True)
+        c = dict(NS=3, NA=2, ALG="MC", GNUM=1, GDEN=2, MAXLEN=4, MAXEP=6, N0=0, SRC=3, LAT=1, LONGLENS=set(), EMIT=True)
         g = tlc.run("TabularRun", tlc.cfg_text(constants=c), workers=1, simulate="num=60", depth=40, seed=rep.seed + 5, tag="c14mcsim")
         G = graph.Graph(g.emitted)
         res = graph.cover(G, G.roots()[0], lambda: MCAdapter(M, 3, 2, 0, (1, 2)), mc_step, lambda ad: ad.view)
@@ -394,14 +458,17 @@ def check_histories(rep, M, counters):
         counters["mc_sim_edges"] = res["edges_tested"]
         for v in res["violations"]:
             rep.violation("monte_carlo:update:" + _site(v), f"monte_carlo.update (simulated): {v['what']}", {"kind": "mc_path", "cfg": m, "path": v["path"]})
-    r = tlc.run("TabularRun", tlc.cfg_text(next="NextBad", constants=dict(NS=2, NA=2, ALG="MC", GNUM=1, GDEN=2, MAXLEN=1, MAXEP=2, N0=0, SRC=1, LAT=0, EMIT=False), invariants=["MCMean"]), workers=min(W, 4), tag="c14mcbad")
+    r = tlc.run("TabularRun", tlc.cfg_text(next="NextBad", constants=dict(NS=2, NA=2, ALG="MC", GNUM=1, GDEN=2, MAXLEN=1, MAXEP=2, N0=0, SRC=1, LAT=0, LONGLENS=set(), EMIT=False), invariants=["MCMean"]), workers=min(W, 4), tag="c14mcbad")
     if r.violated != "MCMean":
         raise tlc.MachineryError("canary: off-by-one step size of the running mean not refuted by MCMean")
+    r = tlc.run("TabularRun", tlc.cfg_text(next="NextBadCumsum", constants=dict(NS=2, NA=2, ALG="MC", GNUM=0, GDEN=1, MAXLEN=2, MAXEP=1, N0=0, SRC=1, LAT=0, LONGLENS=set(), EMIT=False), invariants=["MCMean"]), workers=min(W, 4), tag="c14mcbad2")
+    if r.violated != "MCMean":
+        raise tlc.MachineryError("canary: returns by discounted cumulative sum divided by gamma^t (undefined at gamma = 0) not refuted by MCMean")
 
     # ---- Dyna-Q model
     md_cfgs = [dict(NS=3, SRC=1, E=3)] if quick else [dict(NS=3, SRC=1, E=4), dict(NS=2, SRC=2, E=3)]
     for k, m in enumerate(md_cfgs):
-        c = dict(NS=m["NS"], NA=2, ALG="MODEL", GNUM=1, GDEN=1, MAXLEN=1, MAXEP=m["E"], N0=0, SRC=m["SRC"], LAT=0, EMIT=True)
+        c = dict(NS=m["NS"], NA=2, ALG="MODEL", GNUM=1, GDEN=1, MAXLEN=1, MAXEP=m["E"], N0=0, SRC=m["SRC"], LAT=0, LONGLENS=set(), EMIT=True)
         g = tlc.run("TabularRun", tlc.cfg_text(constants=c, invariants=["ModelIsEmpirical", "RowsNormalised"]), workers=1, coverage=True, tag="c14md", timeout=1500)
         rep.add_tlc(g, f"TabularRun MODEL {m}")
         if not g.ok:
@@ -424,7 +491,7 @@ def check_histories(rep, M, counters):
             rep.violation(f"dynaq:model_update:{site}", f"counter_update/model_update ({m}): {v['what']}", {"kind": "model_path", "cfg": m, "path": [{"op": p["op"], "args": p["args"]} for p in v["path"]]})
         if k == 0:
             rep.sample({"model_transition": g.emitted[len(g.emitted) // 2]})
-    r = tlc.run("TabularRun", tlc.cfg_text(next="NextBad", constants=dict(NS=2, NA=2, ALG="MODEL", GNUM=1, GDEN=1, MAXLEN=1, MAXEP=2, N0=0, SRC=1, LAT=0, EMIT=False), invariants=["ModelIsEmpirical"]), workers=min(W, 4), tag="c14mdbad")
+    r = tlc.run("TabularRun", tlc.cfg_text(next="NextBad", constants=dict(NS=2, NA=2, ALG="MODEL", GNUM=1, GDEN=1, MAXLEN=1, MAXEP=2, N0=0, SRC=1, LAT=0, LONGLENS=set(), EMIT=False), invariants=["ModelIsEmpirical"]), workers=min(W, 4), tag="c14mdbad")
     if r.violated != "ModelIsEmpirical":
         raise tlc.MachineryError("canary: entry-only model update not refuted by ModelIsEmpirical")
 
@@ -870,24 +937,30 @@ def run(rep):
     rep.rule = (
         "single updates: TLC enumerates the complete lattice of Tabular.tla per code section (state, action, successor, [next action], "
         "sentinel tables with the visited entry and the successor row(s) overwritten from {-1,0,1/2,2}, reward, terminated, gamma in {0,1/2,1}, lr) and emits the admissible result tables; "
+        "double Q-learning also on near-tie rows: successor row of the updated table = +-(2^e + level float32 steps), e in {-10,1,10}, levels {-2,0,1,3} per action (float32 ordinals; visited entry = the power of two when it lies in that row), "
+        "other table valuing the actions differently, 3 random keys per vector; "
         "a vector is non-trivial when the visited entry must change. histories: every transition of the reachable graph of TabularRun.tla "
-        "(Monte-Carlo episodes; Dyna-Q observations incl. two successors of one pair) is replayed once; train_* runs: every recorded update call is validated by TLC"
+        "(Monte-Carlo episodes step by step for gamma in {0,1/2,1} and 200-step pattern episodes with gamma=1/2 whose returns-to-go cycle through 1-2 values of {-1,1/2,2} over 1-2 pairs; Dyna-Q observations incl. two successors of one pair) is replayed once; train_* runs: every recorded update call is validated by TLC"
     )
     # A. single updates
     if quick:
-        plan = [("QL", 2, 0), ("SARSA", 2, 0), ("DQL", 2, 0), ("DYNA", 2, 0), ("PLAN", 2, 0)]
+        plan = [("QL", 2, 0, 1), ("SARSA", 2, 0, 1), ("DQL", 2, 0, 1), ("DQLN", 2, 0, 3), ("DYNA", 2, 0, 1), ("PLAN", 2, 0, 1)]
     else:
-        plan = [("QL", 3, 1), ("QL", 2, 1), ("SARSA", 3, 0), ("SARSA", 2, 1), ("DQL", 3, 0), ("DQL", 2, 0), ("DYNA", 3, 1), ("DYNA", 2, 1), ("PLAN", 3, 0), ("PLAN", 2, 1)]
+        plan = [("QL", 3, 1, 1), ("QL", 2, 1, 1), ("SARSA", 3, 0, 1), ("SARSA", 2, 1, 1), ("DQL", 3, 0, 1), ("DQL", 2, 0, 1), ("DQLN", 3, 0, 4), ("DQLN", 2, 1, 2),
+                ("DYNA", 3, 1, 1), ("DYNA", 2, 1, 1), ("PLAN", 3, 0, 1), ("PLAN", 2, 1, 1)]
     first_ql = None
-    for alg, ns, lat in plan:
-        es = check_vectors(rep, M, alg, ns, lat, counters)
+    for alg, ns, lat, nkeys in plan:
+        es = check_vectors(rep, M, alg, ns, lat, counters, nkeys)
         if alg == "QL" and es and first_ql is None:
             first_ql = es
     rep.traces += counters["evals"]
     # canary (a): the realistic wrong variant of double Q-learning must be refuted by TLC
-    r = tlc.run("Tabular", tlc.cfg_text(next="NextBad", constants=dict(NS=2, NA=2, ALG="DQL", LAT=0, EMIT=False), invariants=["UpdateEquation"]), workers=min(W, 4), tag="c14bad")
+    r = tlc.run("Tabular", tlc.cfg_text(next="NextBad", constants=dict(NS=2, NA=2, ALG="DQL", LAT=0, NKEYS=1, EMIT=False), invariants=["UpdateEquation"]), workers=min(W, 4), tag="c14bad")
     if r.violated != "UpdateEquation":
         raise tlc.MachineryError("canary: greedy-at-current-state deviation of double Q-learning not refuted by UpdateEquation")
+    r = tlc.run("Tabular", tlc.cfg_text(next="NextBad", constants=dict(NS=2, NA=2, ALG="DQLN", LAT=0, NKEYS=1, EMIT=False), invariants=["UpdateEquation"]), workers=min(W, 4), tag="c14bad2")
+    if r.violated != "UpdateEquation":
+        raise tlc.MachineryError("canary: near-ties treated as ties (tolerance-greedy double Q-learning) not refuted by UpdateEquation")
     # canary (b): a corrupted expected value must be noticed by the comparison
     if first_ql:
         e = next(x for x in first_ql if tab(x["adm"][0])[x["v"]["s"], x["v"]["a"]] != tab(x["v"]["qA"])[x["v"]["s"], x["v"]["a"]])
@@ -927,6 +1000,8 @@ def run(rep):
         "small scope: |S| <= 3, |A| = 2, dyadic entries/rewards/gamma/lr; float32 arithmetic is exact there, so comparison is ==",
         "non-dyadic step sizes (Monte-Carlo visit counts >= 3) are compared within 4 float32 ulp of the magnitude bound per visit; model frequencies / mean rewards within 1 ulp (one division in float64, one rounding to float32)",
         "ties of the greedy action: any maximiser is admissible (set membership); greedy_policy itself is checked to return a maximiser",
+        "near-ties: the order of float32 ordinals is the order of the floats (float_of_ord cross-checked with exact.ord32 and with the rational of the base power of two per vector); a value 1 float32 step below the maximum is not a maximiser; the result must be admissible under every key",
+        "long Monte-Carlo episodes: compared exactly where TLC states that the arithmetic is rounding-free (every visited pair unvisited before and observing one return value), else within 4 float32 ulp of the magnitude bound (max |return| from TLC) per visit; a non-finite entry is a violation",
         "Dyna-Q's update has no termination input: modelled without the (1 - terminated) factor (named deviation from the Q-learning form, not an alarm)",
         "bulk replay calls the real jitted function under jax.vmap; a seeded sample is also called un-batched with python scalars and must agree",
         "train_* runs: epsilon=0.5 exploration with the library's own generator; the environment's outcomes come from a seeded numpy generator; recorded calls whose table denominators exceed 2^12 are skipped (counted in skipped_events)",
@@ -949,6 +1024,8 @@ def _path_to_events(kind, d):
         for st in d["path"]:
             if st["op"] == "MCStep":
                 ep.append(st["args"])
+            elif st["op"] == "MCLong":
+                ep = [list(x) for x in st["args"]]
             else:
                 ev.append({"k": "MC", "ep": ep, "gamma": st["args"][0]})
                 ep = []
@@ -981,7 +1058,7 @@ def replay(path, rep):
         got, n2 = call_single(M, e["v"])
         print("vector:", e["v"])
         print("real result:", np.asarray(got).tolist(), "next action:", n2)
-        print("admissible :", [tab(t).tolist() for t in e["adm"]])
+        print(f"admissible entry ({e['v']['s']},{e['v']['a']}):", [float(tab(t)[e["v"]["s"], e["v"]["a"]]) for t in e["adm"]], " table before:", qa_float(e["v"]).tolist())
         bad = judge_single(e["v"]["alg"], e, got, n2)
     elif kind == "train":
         bad = [(k, w) for _, k, w in validate_runs(rep, M, [d["cfg"]], {})]
@@ -1003,10 +1080,13 @@ def replay(path, rep):
                 if st["op"] == "MCStep":
                     ad.ep.append(st["args"])
                     continue
+                if st["op"] == "MCLong":
+                    ad.ep = [list(x) for x in st["args"]]
+                    continue
                 pre_q = ad.q
                 ep = list(ad.ep)
                 mc_step(ad, "MCEnd", st["args"], None, None, None)
-                print("episode", ep, "->", ad.q.tolist(), ad.n.tolist(), " model:", outs[k]["q"], outs[k]["n"])
+                print("episode", ep if len(ep) <= 8 else f"{ep[:3]} ... {ep[-2:]} ({len(ep)} steps)", "->", ad.q.tolist(), ad.n.tolist(), " model:", outs[k]["q"], outs[k]["n"])
                 try:
                     mc_compare(ad.q, ad.n, outs[k]["q"], outs[k]["n"], cfg["N0"], max(float(np.abs(pre_q).max()), sum(abs(fq(x[2])) for x in ep), 8.0))
                 except Mismatch as m:
